@@ -110,12 +110,33 @@ def _mask_case(args):
                 continue
             if where not in ("interior", "bottom"):
                 continue
-            # translation invariance of contour features
+            # translation invariance of contour features (float contours,
+            # principal ratio first: the functions must not modify their
+            # input, or every later value is computed from something else)
             if len(cont) >= 4:
-                vals = (inert_ratio.cont_moments_cv(cont) or {}).get("m00"), \
-                    inert_ratio.get_inert_ratio_raw(cont), \
+                cf = cont.astype(np.float64)
+                keep = cf.copy()
+                prnc0 = inert_ratio.get_inert_ratio_prnc(cf)
+                vals = (inert_ratio.cont_moments_cv(cf) or {}).get("m00"), \
+                    inert_ratio.get_inert_ratio_raw(cf), \
+                    inert_ratio.get_inert_ratio_cvx(cf), prnc0
+                inert_ratio.get_tilt(cf)
+                if not np.array_equal(cf, keep):
+                    out.append(violation(
+                        "dclab.features.inert_ratio", "input-modified", case,
+                        "a float64 contour passed to the inertia functions "
+                        "was changed in place", tags))
+                ints = (inert_ratio.cont_moments_cv(cont) or {}).get(
+                    "m00"), inert_ratio.get_inert_ratio_raw(cont), \
                     inert_ratio.get_inert_ratio_cvx(cont), \
                     inert_ratio.get_inert_ratio_prnc(cont)
+                if not np.allclose(np.array(vals, float),
+                                   np.array(ints, float), rtol=1e-6,
+                                   equal_nan=True):
+                    out.append(violation(
+                        "dclab.features.inert_ratio",
+                        "depends-on-contour-dtype", case,
+                        f"float contour {vals} vs int contour {ints}", tags))
                 if feats_ref is None:
                     feats_ref = vals
                 elif not np.allclose(
